@@ -9,7 +9,7 @@ export GOFLAGS=-mod=mod GOPROXY=off GOSUMDB=off GOTOOLCHAIN=local
 W=$(mktemp -d /tmp/wt-seed-XXXXXX); rmdir $W
 git -C /repo worktree add -q --detach $W HEAD || exit 2
 trap 'git -C /repo worktree remove --force $W >/dev/null 2>&1; rm -rf /tmp/verif-alt-out' EXIT
-demo=$(ls $out/demo_test.go $out/demo*_test.go $out/demo/main.go 2>/dev/null | head -1)
+demo=${DEMOFILE:-}; [ -n "$demo" ] || demo=$(ls $out/demo_test.go $out/demo*_test.go $out/demo/main.go 2>/dev/null | head -1)
 res=/tmp/seed-$pid-$tag-eval.txt; : > $res
 cp "$demo" $W/$demopath
 ( cd $W && go test ${DEMOFLAGS:-} -vet=off -count=1 -run "$demorun" ./$(dirname $demopath)/ ) > /tmp/seed-demo-clean.txt 2>&1; echo "demo on clean tree: exit $?" | tee -a $res
